@@ -4,7 +4,7 @@ import random
 from fractions import Fraction as Fr
 
 from harness import common
-from harness.common import Report, evaluate_corr, listlit, proof_gate
+from harness.common import Report, evaluate_corr, listlit, proof_gate, report_failure
 from harness.pyconv import colorlit
 
 IMPORTS = ["Model.Field Model.Color Model.Palette Corr.Common Corr.C15"]
@@ -100,6 +100,102 @@ def run(report: Report, tier):
         report.notes["exhaustive_cases"] = sum(1 for m in meta if m["stratum"] == "small_universe_exhaustive")
 
 
+RGB = {"red": (255, 0, 0), "#0000FF": (0, 0, 255), "black": (0, 0, 0), "#00FF00": (0, 255, 0)}
+
+
+def run_fonts(report, n, rng):
+    """whole COLRv1/COLRv0 fonts whose fills mix plain colours, var(--colorN, c) with the same RGBA at several
+    indices (and also unindexed), opacities and currentColor: CPAL layout against an independent spec, and every
+    layer's palette index / alpha against its declaration"""
+    from harness import build, picture, e2e
+
+    for i in range(n):
+        fmt = ["glyf_colr_1", "glyf_colr_0"][i % 2]
+        by_index = {}  # N -> (css colour, alpha): one colour (and in COLRv0 one alpha) per index in a font
+        srcs, expect = [], []
+        for k in range(rng.randint(1, 4)):
+            shapes, exp = [], []
+            for j in range(rng.randint(1, 3)):
+                x, y, w, h = 5 + 22 * j, 10 + 13 * k + 7 * j, 12 + 3 * j + k, 9 + 2 * k + 5 * j  # distinct outlines: no reuse
+                op = rng.choice([1.0, 1.0, 0.5, 0.25])
+                r = rng.random()
+                if r < 0.1:
+                    fill, rgb, idx = "currentColor", "current", None
+                elif r < 0.45:
+                    c = rng.choice(list(RGB))
+                    fill, rgb, idx = c, RGB[c], None
+                else:
+                    nidx = rng.randint(0, 5)
+                    if nidx not in by_index:
+                        by_index[nidx] = (rng.choice(list(RGB)), op)
+                    c, op0 = by_index[nidx]
+                    if fmt.endswith("_0"):
+                        op = op0
+                    fill, rgb, idx = f"var(--color{nidx}, {c})", RGB[c], nidx
+                if rgb == "current" and fmt.endswith("_0"):
+                    op = 1.0  # COLRv0 has no alpha for the foreground colour
+                shapes.append(f'<path d="M{x},{y} L{x + w},{y} L{x + w},{y + h} L{x},{y + h} Z" fill="{fill}"' + (f' opacity="{op}"' if op != 1.0 else "") + "/>")
+                exp.append((rgb, op, idx))
+            cps = (0x1F600 + k,)
+            srcs.append((build.filename_for(cps), '<svg xmlns="http://www.w3.org/2000/svg" viewBox="0 0 100 100">' + "".join(shapes) + "</svg>", cps))
+            expect.append(exp)
+        case = dict(kind="e2e", format=fmt, sources=[s[1] for s in srcs])
+        try:
+            font, cfg, picos, _ = build.build_inprocess(dict(color_format=fmt, reuse_tolerance=-1.0), srcs)
+        except Exception as ex:
+            case["error"] = f"{type(ex).__name__}: {ex}"
+            report_failure(report, f"font_build_{i}", case)
+            return
+        v0 = fmt.endswith("_0")
+        # independent spec of the palette
+        members = set()
+        for exp in expect:
+            for rgb, op, idx in exp:
+                if rgb != "current":
+                    members.add((rgb, op if v0 else 1.0, idx))
+        indexed = {m[2]: m for m in members if m[2] is not None}
+        free = sorted((m for m in members if m[2] is None), key=lambda m: (m[0], m[1]))
+        slots = max(len(members), max(indexed, default=-1) + 1, 1)
+        want = []
+        for sidx in range(slots):
+            if sidx in indexed:
+                want.append((indexed[sidx][0], indexed[sidx][1]))
+            elif free:
+                m = free.pop(0)
+                want.append((m[0], m[1]))
+            else:
+                want.append(((0, 0, 0), 1.0))
+        got = [((c.red, c.green, c.blue), c.alpha) for c in font["CPAL"].palettes[0]]
+        probs = []
+        if len(got) != len(want) or any(g[0] != w[0] or abs(g[1] - w[1] * 255) > 1.0 for g, w in zip(got, want)):
+            probs.append(f"CPAL {got} != specified palette {[(w[0], round(w[1] * 255)) for w in want]}")
+        for (fn, text, cps), exp in zip(srcs, expect):
+            g = e2e.glyph_for(font, cps)
+            act, p2 = picture.colr_picture(font, g)
+            probs += p2
+            layers = [it for it, _ in picture.flatten(act)]
+            if len(layers) != len(exp):
+                probs.append(f"{g}: {len(layers)} layers for {len(exp)} shapes")
+                continue
+            for li, (it, (rgb, op, idx)) in enumerate(zip(layers, exp)):
+                kind, argb, aalpha, aidx = it[2][:4]
+                if rgb == "current":
+                    if argb != "current":
+                        probs.append(f"{g} layer {li}: currentColor became palette entry {aidx}")
+                    continue
+                if argb != rgb or abs(aalpha - op) > 0.005:
+                    probs.append(f"{g} layer {li}: paints {argb} alpha {aalpha:.3f}, declared {rgb} alpha {op}")
+                if idx is not None and aidx != idx:
+                    probs.append(f"{g} layer {li}: uses palette entry {aidx}, declared var(--color{idx})")
+            report.count(("font", fmt, text), True)
+        report.hist("fonts.format", fmt)
+        report.hist("fonts.indexed_colours", min(len(by_index), 6))
+        if probs:
+            case["problems"] = probs[:5]
+            report_failure(report, f"font_{i}", case)
+            return
+
+
 def main(argv):
     common.setup_env()
     tier = common.tier_from_args(argv)
@@ -113,6 +209,8 @@ def main(argv):
     st = proof_gate(report)
     if common.vo_ok("Corr/C15.v"):
         run(report, tier)
+    if not report.violations:
+        run_fonts(report, 10 if tier == "quick" else 200, random.Random(report.seed + 15))
     if not st["proof_ok"] and not report.violations:
         report.violation("proof", dict(kind="proof", theorem="Props/C15.v", detail=report.notes.get("proof_failure")), found_input=False)
     report.open_obligations = [
